@@ -397,7 +397,10 @@ def main():
     first_err = None
     for t in range(n_trials):
         try:
-            args = concrete_args([tuple(c) for c in choice], cfg, rng)
+            cfg_t = cfg
+            if fname == "pinv" and "square" not in cfg:
+                cfg_t = dict(cfg, square=(t % 2 == 0))       # the pseudo-inverse takes operands (and products with factors) of any shape: alternate square and non-square witnesses
+            args = concrete_args([tuple(c) for c in choice], cfg_t, rng)
             if sig is not None and sig.condition is not None and not sig.condition(*args):
                 continue
         except Exception as e:
